@@ -773,6 +773,8 @@ class Gen(object):
                 op['cfg_slot'] = k    # config=<the Config of a live object>
                 return op
         op['cfg'] = self.rng.randrange(len(self.w.configs))
+        if self.rng.random() < 0.15:
+            op['cfg_as_template'] = True      # the Config handed over as template= (an argument type nobody expects)
         return op
 
     def g_export(self):
